@@ -244,12 +244,13 @@ class DashValidator(DashElement):
             mpd_attrs.check_equal(
                 self.prev_manifest.availabilityStartTime, self.manifest.availabilityStartTime,
                 template=r'availabilityStartTime has changed from {} to {}')
-            age = self.manifest.publishTime - self.prev_manifest.publishTime
-            fmt = (r'Manifest should have updated by now. minimumUpdatePeriod is {0} but ' +
-                   r'manifest has not been updated for {1} seconds')
-            mpd_attrs.check_less_than(
-                age, 3 * self.manifest.minimumUpdatePeriod,
-                fmt.format(self.manifest.minimumUpdatePeriod, age.total_seconds()))
+            if self.manifest.minimumUpdatePeriod is not None:
+                age = self.manifest.publishTime - self.prev_manifest.publishTime
+                fmt = (r'Manifest should have updated by now. minimumUpdatePeriod is {0} but ' +
+                       r'manifest has not been updated for {1} seconds')
+                mpd_attrs.check_less_than(
+                    age, 3 * self.manifest.minimumUpdatePeriod,
+                    fmt.format(self.manifest.minimumUpdatePeriod, age.total_seconds()))
         await self.manifest.validate()
         if self.options.save and self.options.prefix:
             kids = set()
@@ -307,6 +308,9 @@ class DashValidator(DashElement):
         if not self.elt.check_equal(self.mode, 'live'):
             return
         if not self.elt.check_not_none(self.manifest):
+            return
+        if self.manifest.minimumUpdatePeriod is None:
+            # the manifest is not going to change, there is nothing to wait for
             return
         next_refresh = self.manifest.publishTime + self.manifest.minimumUpdatePeriod
         self.log.debug(
